@@ -43,6 +43,7 @@ import (
 	"time"
 	"unsafe"
 
+	"github.com/c2h5oh/datasize"
 	"github.com/spf13/afero"
 	"github.com/yandex/pandora/core"
 	"github.com/yandex/pandora/core/aggregator"
@@ -51,6 +52,7 @@ import (
 	"github.com/yandex/pandora/core/schedule"
 	"github.com/yandex/pandora/lib/monitoring"
 	"go.uber.org/zap"
+	"go.uber.org/zap/zapcore"
 
 	"verifharness/internal/vt"
 )
@@ -264,16 +266,17 @@ func (b bufSink) OpenSink() (io.WriteCloser, error) { return b.sink, nil }
 // ---------------------------------------------------------------- one run
 
 type aggRun struct {
-	run     int
-	kind    string // "phout" | "jsonlines"
-	ids     bool
-	k       int
-	per     []int
-	q       int
-	flushMs int
-	delayUs int
-	via     string // "direct" | "engine"
-	mode    string // direct runs: "normal" | "late" | "burst"
+	run       int
+	kind      string // "phout" | "jsonlines"
+	ids       bool
+	k         int
+	per       []int
+	q         int
+	flushMs   int
+	delayUs   int
+	via       string // "direct" | "engine"
+	mode      string // direct runs: "normal" | "late" | "burst"
+	failAfter int    // via "provfail": the provider fails when that many ammo were acquired
 }
 
 // runAggregator captures the aggregator's own Run result (the engine may or may not forward it).
@@ -288,6 +291,10 @@ func (c *runCapture) Run(ctx context.Context, deps core.AggregatorDeps) error {
 	return err
 }
 
+// buffer-size option bounds (coreutil.BufferSizeConfig): 0 = default (512 KiB), below 4 KiB = raised to the
+// minimum, 4 KiB (spills after ~60 lines), 100 KB
+func (cfg aggRun) bufSize() int { return []int{4096, 0, 1, 100000, 4096}[cfg.run%5] }
+
 func buildAggregator(cfg aggRun, w *vt.Writer) (core.Aggregator, func() (int, int)) {
 	sink := &lineSink{run: cfg.run, w: w}
 	switch cfg.kind {
@@ -300,7 +307,7 @@ func buildAggregator(cfg aggRun, w *vt.Writer) (core.Aggregator, func() (int, in
 		conf.ID = cfg.ids
 		conf.SampleQueueSize = cfg.q
 		conf.FlushTime = time.Duration(cfg.flushMs) * time.Millisecond
-		conf.Buffer.BufferSize = 4096
+		conf.Buffer.BufferSize = datasize.ByteSize(cfg.bufSize())
 		a, err := netsample.NewPhout(fs, conf)
 		if err != nil {
 			panic(err)
@@ -314,20 +321,65 @@ func buildAggregator(cfg aggRun, w *vt.Writer) (core.Aggregator, func() (int, in
 			return n, len(b) - (bytes.LastIndexByte(b, '\n') + 1)
 		}
 		return netsample.WrapAggregator(a), content
+	case "log":
+		// every sample is written through to the logger at Info level: the logger is the sink
+		return aggregator.NewLog(), nil
+	case "discard":
+		return aggregator.NewDiscard(), nil
 	case "jsonlines":
 		sink.parse = parseJSONLine
 		conf := aggregator.DefaultJSONLinesAggregatorConfig()
 		conf.Sink = bufSink{sink}
 		conf.FlushInterval = time.Duration(cfg.flushMs) * time.Millisecond
+		if cfg.run%7 == 0 {
+			conf.FlushInterval = 0 // option bound: no periodic flush at all, only the final one
+		}
 		conf.ReporterConfig.SampleQueueSize = cfg.q
-		conf.JSONLineEncoderConfig.BufferSizeConfig.BufferSize = 4096
+		conf.JSONLineEncoderConfig.BufferSizeConfig.BufferSize = datasize.ByteSize(cfg.bufSize())
 		return aggregator.NewJSONLinesAggregator(conf), nil
 	}
 	panic("kind")
 }
 
+// tokSample: the sample type reported to the log / discard aggregators.  It prints as "S<g>-<i>" and is a
+// core.BorrowedSample: Return() must be called exactly once by an aggregator that does not keep it.
+type tokSample struct {
+	G, I     int
+	returned *int64
+}
+
+func (t *tokSample) String() string { return fmt.Sprintf("S%d-%d", t.G, t.I) }
+func (t *tokSample) Return()        { atomic.AddInt64(t.returned, 1) }
+
+var tokReturned sync.Map // run -> *int64
+
+func tokCounter(run int) *int64 {
+	c, _ := tokReturned.LoadOrStore(run, new(int64))
+	return c.(*int64)
+}
+
+// logCore is a zapcore.Core that records every entry the log aggregator writes.
+type logCore struct {
+	run int
+	w   *vt.Writer
+}
+
+func (c logCore) Enabled(zapcore.Level) bool        { return true }
+func (c logCore) With([]zapcore.Field) zapcore.Core { return c }
+func (c logCore) Check(e zapcore.Entry, ce *zapcore.CheckedEntry) *zapcore.CheckedEntry {
+	return ce.AddCore(e, c)
+}
+func (c logCore) Write(e zapcore.Entry, _ []zapcore.Field) error {
+	c.w.Emit(map[string]interface{}{"ev": "LogLine", "run": c.run, "msg": e.Message, "level": e.Level.String()})
+	return nil
+}
+func (c logCore) Sync() error { return nil }
+
 func (cfg aggRun) sample(r *rand.Rand, g, i int) (absSample, core.Sample) {
 	a := genSample(r, g, i)
+	if cfg.kind == "log" || cfg.kind == "discard" {
+		return a, &tokSample{G: g, I: i, returned: tokCounter(cfg.run)}
+	}
 	if cfg.kind == "phout" {
 		return a, realSample(a)
 	}
@@ -362,7 +414,11 @@ func runDirect(cfg aggRun, w *vt.Writer, seed int64) {
 	ctx, cancel := context.WithCancel(context.Background())
 	defer cancel()
 	done := make(chan error, 1)
-	startRun := func() { go func() { done <- a.Run(ctx, core.AggregatorDeps{Log: zap.NewNop()}) }() }
+	logger := zap.NewNop()
+	if cfg.kind == "log" {
+		logger = zap.New(logCore{cfg.run, w})
+	}
+	startRun := func() { go func() { done <- a.Run(ctx, core.AggregatorDeps{Log: logger}) }() }
 	// mode "late": Run starts only after every report was made and the context was cancelled
 	// (core.Aggregator: "Report MAY be called before Aggregator Run"): everything is still queued
 	// when Run sees ctx.Done().  Other modes: Run is started first.
@@ -419,7 +475,15 @@ func runDirect(cfg aggRun, w *vt.Writer, seed int64) {
 	}
 	ready.Wait()
 	close(gate)
-	wg.Wait()
+	reported := make(chan struct{})
+	go func() { wg.Wait(); close(reported) }()
+	select {
+	case <-reported:
+	case <-time.After(60 * time.Second):
+		// only possible when Report blocks although it must not (discard; log / phout with room in the queue)
+		w.Emit(map[string]interface{}{"ev": "ReportBlocked", "run": cfg.run})
+		return
+	}
 	if cfg.delayUs > 0 && cfg.mode != "late" {
 		time.Sleep(time.Duration(cfg.delayUs) * time.Microsecond)
 	}
@@ -438,16 +502,35 @@ func runDirect(cfg aggRun, w *vt.Writer, seed int64) {
 		n, partial := content()
 		w.Emit(map[string]interface{}{"ev": "Content", "run": cfg.run, "lines": n, "partial": partial})
 	}
+	if cfg.kind == "discard" {
+		w.Emit(map[string]interface{}{"ev": "Returned", "run": cfg.run, "n": vt.Small(atomic.LoadInt64(tokCounter(cfg.run)))})
+	}
 }
 
 // ---------------------------------------------------------------- engine runs (mock provider/gun, real aggregator)
 
 type mockProvider struct {
-	mu   sync.Mutex
-	left int
+	mu        sync.Mutex
+	left      int
+	failAfter int           // > 0: Run fails once that many ammo were acquired (C05 plan "prov-mid-run")
+	failNow   chan struct{} // closed at that moment
+	acquired  int
 }
 
-func (p *mockProvider) Run(ctx context.Context, _ core.ProviderDeps) error { <-ctx.Done(); return nil }
+var errProviderMidRun = errors.New("ammo source broke mid-run")
+
+func (p *mockProvider) Run(ctx context.Context, _ core.ProviderDeps) error {
+	if p.failAfter > 0 {
+		select {
+		case <-p.failNow:
+			return errProviderMidRun
+		case <-ctx.Done():
+			return nil
+		}
+	}
+	<-ctx.Done()
+	return nil
+}
 func (p *mockProvider) Acquire() (core.Ammo, bool) {
 	p.mu.Lock()
 	defer p.mu.Unlock()
@@ -455,6 +538,10 @@ func (p *mockProvider) Acquire() (core.Ammo, bool) {
 		return nil, false
 	}
 	p.left--
+	p.acquired++
+	if p.failAfter > 0 && p.acquired == p.failAfter {
+		close(p.failNow)
+	}
 	return p.left, true
 }
 func (p *mockProvider) Release(core.Ammo) {}
@@ -477,13 +564,32 @@ func (g *mockGun) Bind(a core.Aggregator, deps core.GunDeps) error {
 func (g *mockGun) Shoot(core.Ammo) {
 	g.i++
 	abs, s := g.cfg.sample(g.r, g.g, g.i)
-	if g.cfg.via == "cancel" {
+	if g.cfg.via != "engine" || g.cfg.schedEnd() {
 		time.Sleep(time.Duration(20+g.r.Intn(180)) * time.Microsecond) // the shot
 	}
 	g.w.Emit(map[string]interface{}{"ev": "Report", "run": g.cfg.run, "g": g.g, "i": g.i, "s": abs})
 	g.aggr.Report(s)
 	atomic.AddInt64(g.returned, 1)
+	// the call has returned: the sample is in the queue (or counted as dropped) from here on
+	g.w.Emit(map[string]interface{}{"ev": "ReportRet", "run": g.cfg.run, "g": g.g, "i": g.i, "s": abs})
 }
+
+// engine hooks (core/engine/verif_on.go): the pool life-cycle events of the run, written by the await
+// goroutine itself, merged into the same trace as the report / line events (pool id = "r<run>")
+var hookWriter *vt.Writer
+
+func hookSink(pool string, seq int64, ev string, n int, err error) {
+	run, perr := strconv.Atoi(strings.TrimPrefix(pool, "r"))
+	if perr != nil || hookWriter == nil {
+		return
+	}
+	hookWriter.Emit(map[string]interface{}{"ev": "Hook", "run": run, "seq": vt.Small(seq), "hook": ev, "n": n,
+		"err": fmt.Sprint(err), "ooa": engine.VerifIsOutOfAmmo(err)})
+}
+
+// engine runs end either because the ammo runs out or (every other run) because the shared RPS schedule
+// is exhausted while ammo is left (C05 shapes out-of-ammo / sched-end)
+func (cfg aggRun) schedEnd() bool { return cfg.via == "engine" && cfg.run%2 == 0 }
 
 func runEngine(cfg aggRun, w *vt.Writer, seed int64) {
 	w.Emit(map[string]interface{}{"ev": "Run", "run": cfg.run, "kind": cfg.kind, "ids": cfg.ids, "k": cfg.k,
@@ -496,12 +602,22 @@ func runEngine(cfg aggRun, w *vt.Writer, seed int64) {
 	}
 	var gunSeq, returned int64
 	var mu sync.Mutex
-	if cfg.via == "cancel" {
-		total = 2000 // the run is stopped by the cancel, not by the end of ammo
+	if cfg.via != "engine" {
+		total = 2000 // the run is stopped by the cancel / the provider failure, not by the end of ammo
+	}
+	prov := &mockProvider{left: total}
+	newSched := func() (core.Schedule, error) { return schedule.NewUnlimited(time.Hour), nil }
+	if cfg.schedEnd() {
+		tokens := int64(total)
+		prov.left = total + cfg.k + 3
+		newSched = func() (core.Schedule, error) { return schedule.NewOnce(tokens), nil }
+	}
+	if cfg.via == "provfail" {
+		prov.failAfter, prov.failNow = cfg.failAfter, make(chan struct{})
 	}
 	pool := engine.InstancePoolConfig{
-		ID:         "p",
-		Provider:   &mockProvider{left: total},
+		ID:         fmt.Sprintf("r%d", cfg.run),
+		Provider:   prov,
 		Aggregator: rc,
 		NewGun: func() (core.Gun, error) {
 			mu.Lock()
@@ -511,7 +627,7 @@ func runEngine(cfg aggRun, w *vt.Writer, seed int64) {
 			return &mockGun{cfg: cfg, w: w, r: rand.New(rand.NewSource(seed*1000 + n)), returned: &returned}, nil
 		},
 		RPSPerInstance:  false,
-		NewRPSSchedule:  func() (core.Schedule, error) { return schedule.NewUnlimited(time.Hour), nil },
+		NewRPSSchedule:  newSched,
 		StartupSchedule: schedule.NewOnce(int64(cfg.k)),
 	}
 	m := engine.Metrics{Request: &monitoring.Counter{}, Response: &monitoring.Counter{},
@@ -530,13 +646,17 @@ func runEngine(cfg aggRun, w *vt.Writer, seed int64) {
 		before := atomic.LoadInt64(&returned) // read BEFORE the cancel: all of them were made before it
 		w.Emit(map[string]interface{}{"ev": "Cancel", "run": cfg.run, "returned_before": vt.Small(before)})
 		cancel()
+		// from here on the run context IS done: an instance reports at most the shot it has in flight
+		w.Emit(map[string]interface{}{"ev": "Cancelled", "run": cfg.run})
 	}
 	select {
 	case engErr = <-res:
 	case <-time.After(60 * time.Second):
 		timeout = true
 	}
-	if cfg.via == "cancel" && !timeout {
+	if !timeout {
+		// Engine.Wait(): all started tasks have finished (also after a successful Run: onWaitDone is
+		// called right after awaitErr is closed)
 		waited := make(chan struct{})
 		go func() { e.Wait(); close(waited) }()
 		select {
@@ -577,18 +697,27 @@ func aggMain(args []string) {
 	engRuns := fs.Int("engine", 20, "engine runs that end by themselves")
 	cancelRuns := fs.Int("cancel", 20, "engine runs cancelled from outside at a seeded instant")
 	stressRuns := fs.Int("dropstress", 4, "jsonlines runs with thousands of concurrent drops")
+	provRuns := fs.Int("provfail", 0, "engine runs whose provider fails mid-run")
+	otherRuns := fs.Int("other", 0, "direct runs of the log and discard aggregators")
 	par := fs.Int("par", 4, "runs in flight")
 	fs.Parse(args)
 	seed := aggSeed()
 	w := vt.Create(*out)
 	defer w.Close()
+	hookWriter = w
+	engine.VerifSink = hookSink
 	r := rand.New(rand.NewSource(seed))
 	qs := []int{1, 1, 2, 3, 4, 8, 16, 64}
 	flushes := []int{1, 1, 2, 5, 20, 100, 1000}
 	var cfgs []aggRun
-	for n := 0; n < *runs+*engRuns+*cancelRuns+*stressRuns; n++ {
+	for n := 0; n < *runs+*engRuns+*cancelRuns+*stressRuns+*provRuns+*otherRuns; n++ {
 		cfg := aggRun{run: n + 1, via: "direct"}
-		if n >= *runs+*engRuns+*cancelRuns {
+		other := n >= *runs+*engRuns+*cancelRuns+*stressRuns+*provRuns
+		if other {
+			cfg.via = "direct"
+		} else if n >= *runs+*engRuns+*cancelRuns+*stressRuns {
+			cfg.via = "provfail"
+		} else if n >= *runs+*engRuns+*cancelRuns {
 			cfg.via = "direct"
 		} else if n >= *runs+*engRuns {
 			cfg.via = "cancel"
@@ -646,11 +775,30 @@ func aggMain(args []string) {
 				}
 			}
 		}
-		if n >= *runs+*engRuns+*cancelRuns {
+		if n >= *runs+*engRuns+*cancelRuns && cfg.via == "direct" && !other {
 			cfg.mode, cfg.kind, cfg.k, cfg.q = "dropstress", "jsonlines", 8, 1+r.Intn(2)
 			cfg.per = nil
 			for g := 0; g < cfg.k; g++ {
 				cfg.per = append(cfg.per, 3000+r.Intn(2000))
+			}
+		}
+		if other {
+			// log: blocking queue of 128, written through to the logger; discard: nothing at all.
+			// late mode = every report is made before Run starts: discard must not block, log has room for 128
+			cfg.kind = []string{"log", "discard"}[n%2]
+			cfg.mode = []string{"normal", "late", "burst"}[r.Intn(3)]
+			cfg.q = 128
+			room := 128
+			for g := range cfg.per {
+				if cfg.mode == "burst" {
+					cfg.per[g] = 10 + r.Intn(20)
+				}
+				if cfg.kind == "log" && cfg.mode == "late" {
+					if cfg.per[g] > room {
+						cfg.per[g] = room
+					}
+					room -= cfg.per[g]
+				}
 			}
 		}
 		if cfg.via == "engine" {
@@ -663,12 +811,13 @@ func aggMain(args []string) {
 				cfg.q = total + 1
 			}
 		}
-		if cfg.via == "cancel" {
+		if cfg.via == "cancel" || cfg.via == "provfail" {
 			// a blocking Report after the aggregator has returned must find room (default queue: 256 K)
 			if cfg.kind == "phout" {
 				cfg.q = 4096
 			}
 			cfg.delayUs = 200 + r.Intn(6000)
+			cfg.failAfter = 1 + r.Intn(150)
 		}
 		cfgs = append(cfgs, cfg)
 	}
